@@ -35,7 +35,7 @@ ASSUMPTIONS = [
     "a single-slope shape is constrained on its own side; flatness on the other side is judged inside the fitted temperature range only",
     "additivity and exact-line tolerances: 4 ulp of the value scale",
 ]
-REQUIRED_REACH = {"repeat.evaluations_compared": 300, "document.imported_from_2_0": 100, "post.predict_submodel": 300, "regime.smoothed": 50, "regime.plain": 50, "regime.flat": 5,
+REQUIRED_REACH = {"repeat.evaluations_compared": 300, "document.imported_from_2_0": 100, "repeat.other_temperature_dtype_compared": 300, "post.predict_submodel": 300, "regime.smoothed": 50, "regime.plain": 50, "regime.flat": 5,
                   "regime.equal_bp_at_Tmax": 3, "regime.equal_bp_at_Tmin": 3, "clause.between_flat": 100,
                   "clause.monotone": 300, "clause.exact_line": 100, "clause.asymptote": 30, "clause.loads": 300,
                   "boundary.predict": 20, "regime.percent_k_sum_at_or_above_one": 1500, "document.balance_points_in_reversed_order": 30}
@@ -408,6 +408,19 @@ def run_case(spec):
                 if bad:
                     add("value-at-a-temperature-depends-on-earlier-evaluations:%s:%s" % (shape, who),
                         "%d of %d temperatures: e.g. T=%r first evaluation %r, %s evaluation %r" % (len(bad), len(o2), bad[0][0], bad[0][1], who, bad[0][2]))
+            # the temperature column as feeds deliver it: whole degrees in an integer column, float32 - the curve is the same function of the value
+            Ti = np.unique(np.round(sub).astype(np.int64))
+            ref64 = m._predict(_predict_cols(m, Ti.astype(np.float64))).sort_index()
+            for dt_ in (np.int64, np.int32, np.float32):
+                od = m._predict(_predict_cols(m, Ti.astype(dt_))).sort_index()
+                I.reach("repeat.other_temperature_dtype_compared")
+                for col in ("predicted", "heating_load", "cooling_load"):
+                    a_, b_ = ref64[col].to_numpy(dtype=float), od[col].to_numpy(dtype=float)
+                    if len(a_) != len(b_) or not I.bits_equal(a_, b_):
+                        j_ = int(np.argmax(a_ != b_)) if len(a_) == len(b_) else 0
+                        add("value-depends-on-the-dtype-of-the-temperature-column:%s:%s:%s" % (shape, np.dtype(dt_).name, col),
+                            "T=%r: %s is %r with float64 temperatures and %r with %s temperatures" % (Ti[j_], col, a_[j_], b_[j_] if len(b_) > j_ else None, np.dtype(dt_).name))
+                        break
             CUR["judge"] = False
         regimes = sorted(k for k in I.REACH if k.startswith("regime.") and I.REACH[k] > before.get(k, 0))
         hit = _where(0.0, coef, tc).split(":")[-1].replace("in-range", "").strip(",")
